@@ -9,9 +9,11 @@ BIGRATES = (8, 9, 36, 40, 64, 127, 128, 129, 136, 144, 168, 576, 832, 1024, 1027
 
 
 def rates(b, tier):
-    full = 200 if tier == 'thorough' else 50
+    full = 400 if tier == 'thorough' else 50
     if b <= full:
         return list(range(1, b))
+    if tier == 'thorough' and b == 800:
+        return sorted(set(range(1, b, 5)) | {r for r in BIGRATES if r < b})
     rs = [r for r in BIGRATES if 0 < r < b]
     if tier == 'quick':
         keep = {100: (9, 40, 64), 200: (40, 127, 136), 400: (9, 144), 800: (129, 576), 1600: (1027, 1088, 576)}[b]
@@ -262,7 +264,7 @@ def selftest():
 def subchecks():
     return [
         Sub('lengths', pts_len, run_len, engine='P',
-            bound='width b in {25..1600} x every rate 1..b-1 for b<=200 (quick b<=50; else a list of 2-3 rates per width; thorough: 19 named rates incl. 1027,1536) x both bit orders x every bit length 0..2r+2 (r<=64) or every residue {0,1,2,7,8,9,r-9..r-1} over 0..2 full blocks x 2 data patterns; output r+1 bits (two squeezes); byte call and bitlen call'),
+            bound='width b in {25..1600} x every rate 1..b-1 for b<=400 and every 5th rate for b=800 in thorough (quick b<=50; else a list of 2-3 rates per width; thorough: 19 named rates incl. 1027,1536) x both bit orders x every bit length 0..2r+2 (r<=64) or every residue {0,1,2,7,8,9,r-9..r-1} over 0..2 full blocks x 2 data patterns; output r+1 bits (two squeezes); byte call and bitlen call'),
         Sub('output-lengths', pts_out, run_out, engine='P', bound='d in {1,8,r-1,r,r+1,2r+3,3r} at L in {0,r-2,r+5} for the (b,r) above'),
         Sub('containers', pts_cont, run_cont, engine='P',
             bound='L in {0,1,5,8,13,r-1,r,r+3}: exact container, +2 trailing bytes, bitlen=0 with empty and non-empty container; both bit orders'),
